@@ -24,6 +24,7 @@ pub fn generate_queries(
         .collect();
 
     samples.sort();
+    samples.dedup();
     samples
 }
 
